@@ -145,12 +145,12 @@ def flatten_rules(case: int, pos: int, extra: int) -> bool:
     case 0: legal (M, K) flatten; 1: flatten combined with another directive; 2: flatten on a single rank;
     3: a flattened rank also partitioned independently (rank at position pos); 4: index-math rank at position pos;
     5: non-flatten directive (kind extra) on a tuple; 6: shape split of the flattened rank (after flattening);
-    7: flattening an already flattened rank (at position pos)
-    pre: 0 <= case <= 7 and 0 <= pos <= 1 and 0 <= extra <= 2
+    7: flattening an already flattened rank (at position pos); 8: flattening a partition level of a flattened rank
+    pre: 0 <= case <= 8 and 0 <= pos <= 1 and 0 <= extra <= 2
     pre: (SLICE < 0 and case != 4) or case == SLICE
     post: _
     """
-    case, pos, extra = conc(case, 8), conc(pos, 2), conc(extra, 3)
+    case, pos, extra = conc(case, 9), conc(pos, 2), conc(extra, 3)
     cm = CoordMath()
     ranks = ["M", "K", "N", "J"]
     part = {}
@@ -180,9 +180,15 @@ def flatten_rules(case: int, pos: int, extra: int) -> bool:
         part[_ranks_key(["M", "K"])] = [_dir(3)]
         part[_ranks_key(["MK"])] = [_dir(0)] if extra != 1 else [_dir(1)]
         exp_error = True
-    else:
+    elif case == 7:
         part[_ranks_key(["M", "K"])] = [_dir(3)]
         names = ["MK", "N"] if pos == 0 else ["N", "MK"]
+        part[_ranks_key(names)] = [_dir(3)]
+    else:
+        part[_ranks_key(["M", "K"])] = [_dir(3)]
+        part[_ranks_key(["MK"])] = [_dir(2)] if extra != 0 else [_dir(0)]
+        lvl = "MK0" if extra != 2 else "MK1"
+        names = [lvl, "N"] if pos == 0 else ["N", lvl]
         part[_ranks_key(names)] = [_dir(3)]
     try:
         Partitioning(part, ranks, cm)
@@ -237,7 +243,7 @@ def bindings_twin(n: int, missing: int, has_missing: bool, order: int) -> bool:
 
 def _warm():
     """run every networkx-using path once outside CrossHair's tracer (networkx exec()-compiles dispatch wrappers lazily)"""
-    for case in range(8):
+    for case in range(9):
         for pos in range(2):
             try:
                 flatten_rules(case, pos, 0)
